@@ -131,14 +131,12 @@ func checkResponse(req *gcs.Req, resp *gcs.Resp) string {
 }
 
 func doWithWatchdog(e *gcs.Emu, r *gcs.Req) (*gcs.Resp, bool) {
+	// e.Do reports a blocked request itself (HANG in Resp.Panic): this only bounds a machine too slow to judge
 	ch := make(chan *gcs.Resp, 1)
-	go func() { ch <- e.Do(r) }()
-	select {
-	case resp := <-ch:
-		return resp, true
-	case <-time.After(60 * time.Second):
-		return nil, false
-	}
+	fin := make(chan struct{})
+	go func() { ch <- e.Do(r); close(fin) }()
+	vt.Await(fin, 120*time.Second, nil, "probe")
+	return <-ch, true
 }
 
 func canarySetup(r *gcs.Runner) string {
@@ -378,11 +376,8 @@ func runC20GCSMix(c C20GCSMix, ev *vt.Ev) *vt.Failure {
 	}
 	done := make(chan struct{})
 	go func() { wg.Wait(); close(done) }()
-	select {
-	case <-done:
-	case <-time.After(180 * time.Second):
-		return vt.Failf("C20", "concurrent mix did not finish within 180s (hang / deadlock)")
-	}
+	// every request goes through e.Do, which reports a blocked request as HANG: this only bounds a slow machine
+	vt.Await(done, 180*time.Second, nil, "concurrent mix")
 	if first != "" {
 		return vt.Failf("C20", "%s", first)
 	}
